@@ -49,6 +49,9 @@ def run(ctx, chk):
                 for p, term in flat.items():
                     for s in sources(term):
                         if s[0] in ("bits", "sext"):
+                            if not (isinstance(s[1], int) and isinstance(s[2], int)):
+                                chk.ob(False, "C14/beyond-end/%s/%s/symbolic" % (struct, p), "%s.%s [%s] is read from a position that depends on the payload (%r)" % (struct, p, cfg, s))
+                                continue
                             chk.ob(s[1] + s[2] <= 8 * nmin, "C14/beyond-end/%s/%s/%s" % (struct, p, s),
                                    "%s.%s [%s] is read from bits %d..%d although the payload may be only %d bytes" % (struct, p, cfg, s[1], s[1] + s[2] - 1, nmin))
             # ---- (a) mandatory part
@@ -165,7 +168,15 @@ def run(ctx, chk):
     chk.ob(n_sig >= 80 * len(cfgs) // 2, "C14/floor/%d" % n_sig, "only %d legal-length signatures were checked" % n_sig)
 
 
+class _Shape(dict):
+    """the inferred shape of a decoded message; an aspect that could not be inferred (the message
+    decoded to another structure altogether) reads as None and fails its comparison"""
+    def __missing__(self, k):
+        return None
+
+
 def check_signature(chk, cfg, t, bits, nb, struct, flat, sh, o):
+    sh = _Shape(sh)
     def ob(ok, what, got, want):
         chk.ob(ok, "C14/sig/%d/%d/%s/%s" % (t, bits, what, got), "type %d [%s] at the legal length %d bits (%d bytes): %s is %s, expected %s" % (t, cfg, bits, nb, what, got, want),
                sample={"type": t, "bits": bits, "bytes": nb, what: str(got)})
@@ -177,7 +188,7 @@ def check_signature(chk, cfg, t, bits, nb, struct, flat, sh, o):
     elif t == 16:
         ob(sh["second"] == (bits == 144), "second station", sh["second"], bits == 144)
     elif t == 15:
-        st = sh["stations"]
+        st = sh["stations"] or []
         if bits == 88:
             ok = len(st) == 1 and st[0] >= 1
             off = flat.get("stations[0].messages[0].slot_offset")
@@ -207,8 +218,8 @@ def check_signature(chk, cfg, t, bits, nb, struct, flat, sh, o):
             tc = text_chars(flat.get("message_part#PartA.vessel_name"))
             ob(tc is not None and tc[1] == 20, "vessel_name characters", tc and tc[1], 20)
     elif t == 5:
-        ob(sh["dest_chars"] == 20, "destination characters", sh["dest_chars"], 20)
-        ob(sh["dte_present"], "dte read", sh["dte_present"], True)
+        ob(sh.get("dest_chars") == 20, "destination characters", sh.get("dest_chars"), 20)
+        ob(sh.get("dte_present"), "dte read", sh.get("dte_present"), True)
     elif t in (12, 14):
         tc = text_chars(flat.get("text"))
         head = 72 if t == 12 else 40
